@@ -25,7 +25,7 @@ ASSUMPTIONS = [
     "a message is expired at t >= accept + lifetime (the property text: 'never at or after its lifetime has elapsed')",
     "all instants are dyadic rationals, so 'exactly at expiry' is an exact float comparison",
 ]
-PROBES = ["c16.requeued_victim_expired", "c16.down_by_write_fault", "c16.add_at_connect_notification", "c16.expired_during_slow_flush", "c16.overflow", "c16.expiry_made_room", "c16.send_at_exact_expiry", "c16.not_open", "c16.expired_never_sent", "c16.connect_at_exact_expiry"]
+PROBES = ["c16.add_during_teardown_after_failed_flush", "c16.requeued_victim_expired", "c16.down_by_write_fault", "c16.add_at_connect_notification", "c16.expired_during_slow_flush", "c16.overflow", "c16.expiry_made_room", "c16.send_at_exact_expiry", "c16.not_open", "c16.expired_never_sent", "c16.connect_at_exact_expiry"]
 LIFETIMES = [0.25, 0.5, 1.0, 2.0, 5.0, 30.0]
 
 
@@ -124,9 +124,73 @@ def exec_after_fault(sc: dict) -> dict:
     return common.result(w, V, nontrivial=True, probes=probes, evals=max(1, len(subs)))
 
 
+def gen_teardown_send(rng) -> dict:
+    """A full (or nearly full) backlog meets a connection whose very first write fails; while the client tears that connection
+    down, a connection subscriber submits one more message from inside its connected=False callback. The message whose
+    write failed holds a place again if it is owed a retry - the bound of ten applies to that send too."""
+    gen = rng.choice([4, 5])
+    n = rng.choice([8, 9, 10, 10])
+    msgs = sendq.distinct_messages(rng, gen, n + 1)
+    head_retries = rng.choice([0, 2, 2])
+    k = rng.choice([0, 1])
+    knobs = {"latency": G.TICK, "first_packet_id": rng.choice([0, 250]),
+             "fates": [{"kind": "refuse", "latency": 0.0}] * (1 + k) + [{"kind": "accept", "latency": 0.0}] + [{"kind": "refuse", "latency": 0.0}] * rng.choice([0, 1]) + [{"kind": "accept", "latency": 0.0}]}
+    tl = [{"at": 0.0, "op": "user.open"},
+          {"at": 0.0, "op": "user.send_on_connect", "when": "disconnected", "msg": msgs[n], "policy": {"retries": rng.choice([0, 2]), "lifetime": 30.0}},
+          {"at": 0.25, "op": "net.fail_write", "nth": 1, "err": rng.choice(["EPIPE", "ECONNRESET", "ETIMEDOUT"])}]
+    t = 0.5
+    for i, d in enumerate(msgs[:n]):
+        tl.append({"at": t, "op": "user.send", "msg": d, "policy": {"retries": head_retries if i == 0 else rng.choice([0, 2]), "lifetime": 30.0}})
+        t += rng.choice([G.TICK, 0.0625])
+    return {"gen": gen, "mode": "socket", "knobs": knobs, "timeline": tl, "end": 2.0 * (3 + k) + 6.0, "class": "teardown_send", "head_retries": head_retries, "n": n}
+
+
+def exec_teardown_send(sc: dict) -> dict:
+    w = World(sc).run()
+    V = []
+    probes = {}
+    h = sendq.History(w)
+    links = [l for l in w.net.links if l.t_accept is not None]
+    fired = any(e[2] == "fault.fired" for e in w.trace.events)
+    x_call = next((c for c in w.calls if c["step"].get("on_disconnect")), None)
+    down = sorted([s for s in h.subs if s["t_accept"] is not None and not (x_call and s["id"] == x_call["id"])], key=lambda s: s["seq_call"])
+    if not fired or len(links) < 2 or x_call is None or x_call["t_call"] is None or len(down) != sc["n"] or any(s["exc"] for s in down):
+        return common.result(w, V, nontrivial=False, probes=probes)
+    if not (links[0].t_accept <= x_call["t_call"] < links[1].t_accept):
+        return common.result(w, V, nontrivial=False, probes=probes)
+    probes["c16.add_during_teardown_after_failed_flush"] = 1
+    held = sc["n"] if sc["head_retries"] > 0 else sc["n"] - 1
+    x = next((s for s in h.subs if s["id"] == x_call["id"]), None)
+    x_exc = type(x_call["exc"]).__name__ if x_call["exc"] is not None else None
+    want = [s["id"] for s in (down if sc["head_retries"] > 0 else down[1:])]
+    if held >= 10:
+        probes["c16.overflow"] = 1
+        if x_exc != "QueueOverflowError":
+            V.append(viol("C16.no_overflow_error", {"sub": x_call["id"], "got": x_exc, "held": held, "t": x_call["t_call"], "during_teardown": True}))
+    else:
+        if x_exc is not None:
+            V.append(viol("C16.spurious_error", {"sub": x_call["id"], "exc": x_exc, "held": held, "t": x_call["t_call"], "during_teardown": True}, exc=x_exc))
+        else:
+            want.append(x_call["id"])
+    if not V:
+        ids = {s["id"] for s in down} | {x_call["id"]}
+        got = [f["sub"] for f in h.frames if f["link"] >= links[1].id and f.get("sub") in ids]
+        if len(got) > 10:
+            V.append(viol("C16.more_than_ten_held", {"got": got, "during_teardown": True}))
+        elif got != want:
+            missing = [i for i in want if i not in got]
+            extra = [i for i in got if i not in want]
+            V.append(viol("C16.held_lost" if missing else "C16.expired_or_rejected_sent" if extra else "C16.order",
+                          {"want": want, "got": got, "missing": missing, "extra": extra, "during_teardown": True}))
+    del x
+    return common.result(w, V, nontrivial=True, probes=probes, evals=max(1, len(down) + 1))
+
+
 def generate(rng, index: int, tier: str) -> dict:
     if rng.random() < 0.12:
         return gen_after_fault(rng)
+    if rng.random() < 0.06:
+        return gen_teardown_send(rng)
     gen = rng.choice([4, 5])
     knobs = {"latency": G.TICK, "first_packet_id": rng.choice([0, 250])}
     n = rng.choice([3, 8, 11, 12, 14, 20, 30, 40])
@@ -179,6 +243,8 @@ def generate(rng, index: int, tier: str) -> dict:
 def execute(sc: dict) -> dict:
     if sc.get("class") == "after_fault":
         return exec_after_fault(sc)
+    if sc.get("class") == "teardown_send":
+        return exec_teardown_send(sc)
     w = World(sc).run()
     V = []
     probes = {}
